@@ -150,6 +150,31 @@ def _run_query(obj, q, shared=None):
         return [canon(res), [x["objectives"] for x in log]]
     if k == "ge_polyhedron":
         return canon(obj.ge_polyhedron)
+    if k == "poly_analysis":
+        # the read-only analysis functions of the polyhedron a configurator hands out (ONE cached object per configurator);
+        # neglect_columns is left out - it writes through a view on the unchanged code (DESIGN section 10)
+        import numpy as np
+        P = obj.ge_polyhedron
+        n = P.shape[1] - 1
+        pat = np.array([[1] * min(3, n) + [0] * (n - min(3, n)), ([0, 1] + [0] * n)[:n]])
+        pts = np.array([[0] * n, [1] * n, [j % 2 for j in range(n)]])
+        out = []
+        for name, f in (("neglectable_columns", lambda: P.neglectable_columns(pat)), ("reducable_columns_approx", lambda: P.reducable_columns_approx()),
+                        ("reducable_rows", lambda: P.reducable_rows()), ("reducable_rows_and_columns", lambda: P.reducable_rows_and_columns()),
+                        ("reduce", lambda: P.reduce(*P.reducable_rows_and_columns())), ("tighten_column_bounds", lambda: P.tighten_column_bounds()),
+                        ("row_bounds", lambda: P.row_bounds()), ("column_bounds", lambda: P.column_bounds()), ("row_distribution", lambda: P.row_distribution(0)),
+                        ("n_row_combinations", lambda: P.n_row_combinations), ("to_linalg", lambda: P.to_linalg()), ("A_max", lambda: P.A_max),
+                        ("A_min", lambda: P.A_min), ("ineqs_satisfied", lambda: P.ineqs_satisfied(pts)), ("separable", lambda: P.separable(pts)),
+                        ("ineq_separate_points", lambda: P.ineq_separate_points(pts)), ("construct", lambda: P.A.construct({}))):
+            try:
+                r = f()
+                r = [np.asarray(x).tolist() for x in r] if isinstance(r, tuple) else np.asarray(r).tolist()
+            except BaseException as e:  # noqa
+                if isinstance(e, (KeyboardInterrupt, SystemExit)):
+                    raise
+                r = {"raised": type(e).__name__}
+            out.append([name, r])
+        return out
     if k == "default_prios":
         return canon(obj.default_prios)
     if k == "leafs":
@@ -167,7 +192,7 @@ def _run_query(obj, q, shared=None):
 
 MODEL_QUERIES = ["evaluate", "evaluate_propositions", "assume", "reduce", "negate", "errors", "flatten", "to_json", "to_text",
                  "to_short", "b64_roundtrip", "to_ge_polyhedron", "flags", "solve", "inspect"]
-CFG_QUERIES = ["ge_polyhedron", "default_prios", "leafs", "select", "add", "ge_polyhedron", "select"]
+CFG_QUERIES = ["ge_polyhedron", "default_prios", "leafs", "select", "add", "ge_polyhedron", "select", "poly_analysis", "select"]
 
 
 # ------------------------------------------------------------------------------------------------ reference process
